@@ -1,10 +1,100 @@
-/- Property C10: the property theorems (and nothing else). -/
+/- Property C10: the property theorems (and nothing else). Proofs: Proofs/EncodeRefine.lean,
+   Proofs/OptDefaults.lean, Proofs/ReaderProps.lean. -/
 import Frugal.Proofs.EncodeRefine
+import Frugal.Proofs.SizeExact
+import Frugal.Proofs.OptDefaults
+import Frugal.Proofs.DecodeRefine
 import Frugal.Props.Instances
 namespace Frugal.C10
 open Frugal
-/-- the skip logic of the encoder as written is the `fieldWritten` predicate of the specification -/
+/-- the skip logic of the encoder as written (the two flags computed per field, the two tests in
+    the writer) is the `fieldWritten` predicate of the specification -/
 theorem written_iff (sd : SDesc) (f : Field) (x : Val) :
     (!(canSkipNil Generated.params f && isNilWord x) && !(canSkipDefault sd f && goEqual f.ty.tt f.default x)) =
       fieldWritten sd f x := skip_eq Instances.params_valid sd f x
+
+/-- a field is omitted exactly when it is optional and either a nil pointer / nil binary / nil
+    container, or a non-pointer field equal (Go `==`) to the default its struct declares -/
+theorem omitted_exactly_when (sd : SDesc) (f : Field) (x : Val) :
+    fieldWritten sd f x = false ↔
+      f.req = .optional ∧
+        (((f.ty.isPtr = true ∨ f.ty.isBinary = true ∨ f.ty.isContainer = true) ∧ isNilWord x = true) ∨
+         (f.ty.isPtr = false ∧ sd.hasInit = true ∧ goEqual f.ty.tt f.default x = true)) :=
+  omitted_iff sd f x
+
+/-- … and in the bytes: the produced message has a header for field `f` exactly when `f` is written -/
+theorem header_present_exactly_when (S : Schema) (sd : SDesc) (fs : List Field) (xs : List Val)
+    (hpw : fs.Pairwise (fun a b => a.id ≠ b.id)) (f : Field) (x : Val) (hm : (f, x) ∈ fs.zip xs) :
+    (∃ tv, (f.id, tv) ∈ toWireFields S sd fs xs) ↔ fieldWritten sd f x = true :=
+  header_present_iff S sd fs xs hpw f x hm
+
+/-- the same two tests in the size walk: EncodedSize counts a field exactly when it is written
+    (this is `size_exact`, C04; restated here for the field-level flags) -/
+theorem size_uses_same_tests (S : Schema) (hS : S.ok = true) (sid : Nat) (v : Val)
+    (ht : hasTy S (.strct sid) v = true) :
+    sizeM Generated.params S sid v = (appendM Generated.params S sid v).length := by
+  unfold sizeM appendM
+  rw [sizeFunc_eq Instances.params_valid S hS v (.strct sid) rfl ht rfl,
+      appendAny_eq Instances.params_valid S hS v (.strct sid) rfl ht]
+
+/-- value equality by kind: containers and structs never equal their default -/
+theorem containers_never_default (t : TT) (a b : Val) (h : t = .list ∨ t = .set ∨ t = .map ∨ t = .strct) :
+    goEqual t a b = false := goEqual_container t a b h
+
+/-- doubles: NaN is never the default (always written); -0.0 `==` 0.0 (omitted with default 0.0) -/
+theorem double_equality_is_ieee (a : Nat) :
+    f64Eq 0x7ff8000000000001 a = false ∧ f64Eq a 0x7ff8000000000001 = false ∧
+    f64Eq 0x8000000000000000 0 = true :=
+  ⟨(nan_never_default a).1, (nan_never_default a).2, neg_zero_equals_zero⟩
+
+/-- every nested struct the decoder reads into is first given its declared defaults -/
+theorem nested_struct_gets_defaults (S : Schema) (total f sid : Nat) (F : List (Nat × TVal))
+    (tail : Nat) (vs : List Val) (hh : Bytes) :
+    readVal Generated.params S total (f + 1) (.strct sid) (.strct F) tail (.st vs hh) =
+      readStruct Generated.params S total f sid F tail (initDest S sid (.st vs hh)) :=
+  nested_struct_initialised _ S total f sid F tail vs hh
+
+/-- `InitDefault()` assigns exactly the fields it declares -/
+theorem init_assigns_declared (fs : List Field) (vs : List Val) (j : Nat) (f : Field) (v : Val)
+    (hf : fs[j]? = some f) (hv : vs[j]? = some v) :
+    (applyInit fs vs)[j]? = some (if f.assigned then f.dflt.getD v else v) :=
+  applyInit_slot fs vs j f v hf hv
+
+/-- the top-level destination is never re-initialised -/
+theorem top_level_untouched_by_init (S : Schema) (sid : Nat) (fs : List (Nat × TVal)) (trailing : Nat)
+    (dest : Val) :
+    readMessage Generated.params S sid fs trailing dest =
+      readStruct Generated.params S ((ser (.strct fs)).length + trailing) Generated.params.maxDepth
+        sid fs trailing dest := rfl
+
+/-- fields absent from the message read as the destination (initialised, when nested) had them;
+    fields present override them (`roundtrip`, C01, and `decoder_is_reference_reader`, C03) -/
+theorem absent_fields_read_as_defaults (S : Schema) (total f sid : Nat) (F : List (Nat × TVal))
+    (tail : Nat) (vs out : List Val) (h h2 : Bytes)
+    (hok : readStruct Generated.params S total (f + 1) sid F tail (.st vs h) = .ok (.st out h2))
+    (j : Nat) (hj : j ∉ writtenIxs (S.get sid) F) : out.getD j default = vs.getD j default :=
+  absent_fields_keep_destination _ S total f sid F tail vs out h h2 hok j hj
+
+/-- an optional pointer field is non-nil after decoding when the message carried it … -/
+theorem carried_pointer_is_nonnil (S : Schema) (total fuel : Nat) (sd : SDesc) (fs : List (Nat × TVal))
+    (tail : Nat) (vs : List Val) (st' : LoopSt)
+    (h : readFields Generated.params S total fuel sd fs tail { fs := vs } = .ok st')
+    (id : Nat) (v : TVal) (ix : Nat) (f : Field) (hm : (id, v) ∈ fs)
+    (hk : lookupKnown sd id v.tag = some (ix, f)) (hp : f.ty.isPtr = true) (hlt : ix < vs.length) :
+    ∃ w, st'.fs.getD ix default = .ptr w :=
+  carried_ptr_nonnil _ S total fuel sd fs tail _ st' h id v ix f hm hk hp hlt
+
+/-- … and keeps what the destination had (nil, for a fresh one) when it did not -/
+theorem absent_pointer_keeps_destination (S : Schema) (total fuel : Nat) (sd : SDesc)
+    (fs : List (Nat × TVal)) (tail : Nat) (vs : List Val) (st' : LoopSt)
+    (h : readFields Generated.params S total fuel sd fs tail { fs := vs } = .ok st')
+    (j : Nat) (hj : j ∉ writtenIxs sd fs) : st'.fs.getD j default = vs.getD j default :=
+  untouched _ S total fuel sd fs tail vs st' h j hj
+
+/-- all of the above is about the decoder as written: it computes the reference reader -/
+theorem decoder_is_reader (S : Schema) (hS : S.ok = true) (sid : Nat) (fs : List (Nat × TVal))
+    (trailing : Bytes) (dest : Val) (hw : wfFields fs = true) :
+    decodeM Generated.params S sid (ser (.strct fs) ++ trailing) dest =
+      (readMessage Generated.params S sid fs trailing.length dest).mapv (·, (ser (.strct fs)).length) :=
+  decodeM_refines Instances.params_valid S hS sid fs trailing dest hw
 end Frugal.C10
